@@ -666,4 +666,325 @@ example : let c : Cfg := { relu := true, bits := 3, maxValue := some (pow2 2), n
   simp only [c, Option.some.injEq] at hm
   rw [← hm]; exact pow2_pos 2
 
+/-! ## strengthening round (seed C03-5): argument spellings, stochastic flag, object histories
+
+  `Ctor` is the constructor call as written (every numeric argument with its spelling), `RawAdmS`
+  adds `use_stochastic_rounding` and the learning phase, `Obj` is one quantizer object over a
+  history of re-configurations (cached exponent range + live attributes). -/
+
+/-- the stored configuration — hence every output, the exponent interval and every theorem above —
+    depends on the VALUES of the constructor arguments only, not on how they are spelled (python
+    int / float, numpy scalar of any type, 0-d ndarray, tf constant / variable) -/
+theorem C03_ctor_value_only (k k' : Ctor) (eps : ℚ) (h : k.SameValues k') : k.cfg eps = k'.cfg eps := by
+  obtain ⟨h1, h2, h3, h4, -, h6, h7⟩ := h
+  unfold Ctor.cfg
+  rw [h1, h2, h3, h4, h6, h7]
+
+/-- the exponent interval of a constructor call: `[-2^n, 2^n - 1]`, `n = bits - 1 - s` (relu
+    variant `bits - s`), where `s = 0` iff the VALUE of `max_value` is `≤ 1` — whatever its type
+    (this is what seed C03-5 breaks for numpy scalars other than float64) -/
+theorem C03_ctor_exp_interval (k : Ctor) (eps : ℚ) (hq : k.quad = false) :
+    let c := k.cfg eps
+    let n := (if k.relu then k.bits else k.bits - 1) -
+      (match k.maxValue with | none => 1 | some m => if 1 < m.val then 1 else 0)
+    c.minExp = -(2 : ℤ) ^ n ∧ c.maxExp = (2 : ℤ) ^ n - 1 := by
+  intro c n
+  obtain ⟨h1, h2, h3⟩ := C03_exp_interval c hq
+  have hn : c.effBits = n := by
+    rw [h3]
+    show (if k.relu then k.bits else k.bits - 1) -
+      (match k.maxValue.map (·.val) with | none => 1 | some m => if 1 < m then 1 else 0) = n
+    cases hm : k.maxValue <;> simp [n, hm]
+  rw [← hn]; exact ⟨h1, h2⟩
+
+/-- `min()/max()` are the proved `qmin/qmax` for every spelling of `bits` that is not a numpy
+    integer … -/
+theorem C03_form_minmax_partial (bf : NumForm) (c : Cfg) (h : bf.npIntWidth = none) :
+    qmaxForm bf c = qmax c ∧ qminForm bf c = some (qmin c) := by
+  have h1 : qmaxForm bf c = qmax c := by
+    unfold qmaxForm qmax; rw [h]
+  refine ⟨h1, ?_⟩
+  unfold qminForm qmin
+  rw [h1, h]
+  by_cases hr : c.relu = true <;> by_cases hs : c.negSlope = 0 <;> simp [hr, hs]
+
+/-- … and for a numpy integer `bits` of width `w` as long as `2**max_exp` does not wrap and the
+    smallest code is not asked for -/
+theorem C03_npint_minmax_partial (bf : NumForm) (c : Cfg) (w : ℕ) (h : bf.npIntWidth = some w)
+    (hm : c.maxExp < (w : ℤ) - 1 ∨ c.maxValue.isSome ∧ c.maxValue ≠ some 0) :
+    qmaxForm bf c = qmax c ∧ (¬ (c.relu = true ∧ c.negSlope = 0) → qminForm bf c = some (qmin c)) := by
+  have h1 : qmaxForm bf c = qmax c := by
+    unfold qmaxForm qmax; rw [h]
+    cases ht : truthy c.maxValue with
+    | some m => rfl
+    | none =>
+      rcases hm with hm | ⟨hs, hz⟩
+      · simp only; rw [if_neg (by omega)]
+      · exfalso
+        unfold truthy at ht
+        cases hmv : c.maxValue with
+        | none => simp [hmv] at hs
+        | some m =>
+          rw [hmv] at ht
+          by_cases h0 : m = 0
+          · exact hz (by rw [hmv, h0])
+          · simp [h0] at ht
+  refine ⟨h1, ?_⟩
+  intro hn
+  unfold qminForm qmin
+  rw [h1]
+  by_cases hr : c.relu = true <;> by_cases hs : c.negSlope = 0 <;> simp [hr, hs] at hn ⊢
+
+/-- recorded finding `C03-numpy-int-bits` (a): `quantized_relu_po2(np.int64(4)).min()` raises
+    (`2**np.int64(-8)`: "Integers to negative integer powers are not allowed") -/
+theorem C03_npint_min_raises_counterexample :
+    let k : Ctor := { relu := true, bits := 4, bitsForm := .npInt64, maxValue := none, negSlope := ⟨.pyInt, 0⟩,
+                      stochastic := false, quad := false, floorMode := false }
+    qminForm k.bitsForm (k.cfg epsF32) = none ∧
+    qminForm .pyInt (k.cfg epsF32) = some (pow2 (-8)) := by
+  intro k
+  constructor
+  · show qminForm NumForm.npInt64 (k.cfg epsF32) = none
+    unfold qminForm
+    have h1 : (k.cfg epsF32).relu = true := rfl
+    have h2 : (k.cfg epsF32).negSlope = 0 := rfl
+    rw [if_pos h1, if_pos h2]; rfl
+  · have : (k.cfg epsF32).minExp = -8 := by
+      simp [k, Ctor.cfg, Cfg.minExp, Cfg.effBits, needSign]
+    simp only [qminForm, NumForm.npIntWidth, this]
+    simp [k, Ctor.cfg]
+
+/-- recorded finding `C03-numpy-int-bits` (b): `quantized_po2(np.int64(8)).max()` is `1.0`
+    (`2**np.int64(63)` wraps) while `q(2^40) = 2^40` -/
+theorem C03_npint_max_wraps_counterexample :
+    let k : Ctor := { relu := false, bits := 8, bitsForm := .npInt64, maxValue := none, negSlope := ⟨.pyInt, 0⟩,
+                      stochastic := false, quad := false, floorMode := false }
+    let c := k.cfg epsF32
+    qmaxForm k.bitsForm c = 1 ∧ RawAdm c (logArg c (pow2 40)) 40 ∧ quantWith c (pow2 40) 40 = pow2 40 ∧
+    qmaxForm .pyInt c = pow2 63 := by
+  intro k c
+  have hmin : c.minExp = -64 := by simp [c, k, Ctor.cfg, Cfg.minExp, Cfg.effBits, needSign]
+  have hmax : c.maxExp = 63 := by simp [c, k, Ctor.cfg, Cfg.maxExp, Cfg.maxExp0, Cfg.effBits, needSign]
+  have hp : (0 : ℚ) ≤ pow2 40 := (pow2_pos 40).le
+  have hmag : magIn c (pow2 40) = pow2 40 := magIn_of_nonneg c hp
+  have hlog : logArg c (pow2 40) = pow2 40 := by
+    unfold logArg; rw [hmag]; simp [c, k, Ctor.cfg, xFilter, epsF32, pow2_eq_zpow]; norm_num
+  refine ⟨?_, ?_, ?_, ?_⟩
+  · unfold qmaxForm; rw [hmax]; simp [c, k, Ctor.cfg, truthy, NumForm.npIntWidth]
+  · rw [hlog, rawAdm_rnd c rfl]; unfold RndAdm key bandLo bandHi
+    simp only [c, k, Ctor.cfg, beta, pow2_eq_zpow]; norm_num
+  · unfold quantWith clipExpWith
+    rw [hmag, hmin, hmax, signOut_of_nonneg c hp]
+    simp [c, k, Ctor.cfg, Cfg.qf, clipI, epsF32, pow2_eq_zpow]; norm_num
+  · unfold qmaxForm; rw [hmax]
+    simp [c, k, Ctor.cfg, truthy, NumForm.npIntWidth, rmax, pow2_eq_zpow]; norm_num
+
+/-! ### `use_stochastic_rounding` and the learning phase -/
+
+/-- inference phase: the stochastic flag changes nothing (both rounding modes) -/
+theorem C03_stochastic_inference (c : Cfg) (st : Bool) (v : ℚ) (r : ℤ) :
+    RawAdmS c st false v r ↔ RawAdm c v r := by
+  unfold RawAdmS; cases c.floorMode <;> simp
+
+/-- `log2_rounding = "floor"` is tested before the stochastic branch: with "floor" the flag changes
+    nothing in EITHER phase (seed C08-5 swaps the two tests) -/
+theorem C03_stochastic_floor (c : Cfg) (hf : c.floorMode = true) (st tr : Bool) (v : ℚ) (r : ℤ) :
+    RawAdmS c st tr v r ↔ RawAdm c v r := by
+  unfold RawAdmS; simp [hf]
+
+theorem C03_stochastic_admissible_inference (c : Cfg) (st : Bool) (x y : ℚ) :
+    AdmissibleS c st false x y ↔ Admissible c x y := by
+  unfold AdmissibleS Admissible
+  constructor
+  · rintro ⟨r, h, rfl⟩; exact ⟨r, (C03_stochastic_inference c st _ r).mp h, rfl⟩
+  · rintro ⟨r, h, rfl⟩; exact ⟨r, (C03_stochastic_inference c st _ r).mpr h, rfl⟩
+
+/-- "floor" with the stochastic flag, either phase: the output is the exact floor output -/
+theorem C03_stochastic_floor_eq_exact (c : Cfg) (hq : c.quad = false) (hf : c.floorMode = true)
+    (hw : c.WF) (st tr : Bool) (x y : ℚ) (h : AdmissibleS c st tr x y) : y = quant c x := by
+  obtain ⟨r, ha, rfl⟩ := h
+  exact C03_floor_admissible_eq_exact c hq hf hw x _ ⟨r, (C03_stochastic_floor c hf st tr _ r).mp ha, rfl⟩
+
+/-- every phase, every flag: the output is a signed power of two with an in-range exponent
+    (`C03_is_po2`, `C03_sign`, `C03_zero_to_min`, `C03_relu_negative_to_min`, `C03_leaky_negative`
+    hold for EVERY rounded logarithm `r`, so they cover the training-phase stochastic choice) -/
+theorem C03_stochastic_is_po2 (c : Cfg) (hq : c.quad = false) (st tr : Bool) (x y : ℚ)
+    (h : AdmissibleS c st tr x y) : ∃ e : ℤ, c.minExp ≤ e ∧ e ≤ c.maxExp ∧ |y| = pow2 e := by
+  obtain ⟨r, -, rfl⟩ := h
+  exact C03_is_po2 c hq x r
+
+/-- training phase, "rnd": `stochastic_round_po2` picks one of the two powers of two that bracket
+    the input -/
+theorem C03_stochastic_training_bracket (c : Cfg) (hq : c.quad = false) (hf : c.floorMode = false)
+    (v : ℚ) (hv : 0 < v) (r : ℤ) (h : RawAdmS c true true v r) : pow2 (r - 1) ≤ v ∧ v < pow2 (r + 1) := by
+  have hs : StochAdm c v r := by unfold RawAdmS at h; simpa [hf] using h
+  have hfe : floorExp c v = floorLog2Rat v := by unfold floorExp; simp [hq]
+  obtain ⟨h1, h2⟩ := floorLog2Rat_spec v hv
+  rcases hs with h | h <;> rw [h, hfe]
+  · exact ⟨le_trans (pow2_le_pow2 (by omega)) h1, h2⟩
+  · exact ⟨by rw [show floorLog2Rat v + 1 - 1 = floorLog2Rat v by ring]; exact h1,
+      lt_of_lt_of_le h2 (pow2_le_pow2 (by omega))⟩
+
+/-! ### one object over a history of re-configurations -/
+
+theorem C03_obj_init_coherent (k : Ctor) : (Obj.init k).Coherent := rfl
+
+/-- a fresh object computes with the configuration of its constructor call -/
+theorem C03_obj_init_view (k : Ctor) (eps : ℚ) (hb : (Obj.init k).BitsOK) :
+    (Obj.init k).view eps = k.cfg eps := by
+  unfold Obj.BitsOK at hb
+  unfold Obj.view Obj.init Ctor.cfg Cfg.effBits at *
+  simp only at hb ⊢
+  congr 1
+  cases hr : k.relu <;> simp [hr] at hb ⊢ <;> omega
+
+/-- while the cache is coherent the object behaves exactly like a fresh twin built from its
+    current attributes … -/
+theorem C03_obj_coherent_view (o : Obj) (eps : ℚ) (hb : o.BitsOK) (hc : o.Coherent) :
+    o.view eps = o.fresh eps := by
+  unfold Obj.BitsOK at hb
+  unfold Obj.Coherent Obj.fresh Cfg.effBits at hc
+  unfold Obj.view Obj.fresh
+  simp only at hc ⊢
+  congr 1
+  rw [hc]
+  cases hr : o.relu <;> simp [hr] at hb ⊢ <;> omega
+
+/-- … safe steps keep it coherent … -/
+theorem C03_obj_step_coherent (o : Obj) (s : Step) (hb : o.BitsOK) (hc : o.Coherent) (hs : s.Safe o) :
+    (o.step s).BitsOK ∧ (o.step s).Coherent := by
+  unfold Obj.BitsOK Obj.Coherent Obj.fresh Cfg.effBits at *
+  cases s <;> simp only [Obj.step, Step.Safe] at hs ⊢
+  · rw [hs]; exact ⟨hb, hc⟩
+  · exact ⟨hb, hc⟩
+  · exact ⟨hb, hc⟩
+  · exact ⟨hb, hc⟩
+  · rw [hs]; exact ⟨hb, hc⟩
+
+/-- … so after ANY history of safe re-configurations the k-th use equals a fresh twin's -/
+theorem C03_obj_history_fresh (o : Obj) (steps : List Step) (eps : ℚ) (hb : o.BitsOK)
+    (hc : o.Coherent) (hs : SafeRun o steps) : (o.run steps).view eps = (o.run steps).fresh eps := by
+  induction steps generalizing o with
+  | nil => exact C03_obj_coherent_view o eps hb hc
+  | cons s rest ih =>
+    obtain ⟨h1, h2⟩ := hs
+    obtain ⟨hb', hc'⟩ := C03_obj_step_coherent o s hb hc h1
+    exact ih (o.step s) hb' hc' h2
+
+/-- recorded finding `C03-stale-exponent-range`: `q = quantized_po2(4); q.max_value = 0.5`: the
+    clamp follows the new `max_value`, the exponent range stays `[-4, 3]` (a fresh
+    `quantized_po2(4, 0.5)` has `[-8, 7]`): `q(2^-6) = 2^-4`, fresh twin `2^-6` -/
+theorem C03_obj_stale_counterexample :
+    let k : Ctor := { relu := false, bits := 4, bitsForm := .pyInt, maxValue := none, negSlope := ⟨.pyInt, 0⟩,
+                      stochastic := false, quad := false, floorMode := false }
+    let o := (Obj.init k).step (.setMaxValue (some (1 / 2)))
+    let cv := o.view epsF32
+    let cf := o.fresh epsF32
+    cv.minExp = -4 ∧ cf.minExp = -8 ∧
+    RawAdm cv (logArg cv (1 / 64)) (-6) ∧ RawAdm cf (logArg cf (1 / 64)) (-6) ∧
+    quantWith cv (1 / 64) (-6) = 1 / 16 ∧ quantWith cf (1 / 64) (-6) = 1 / 64 := by
+  intro k o cv cf
+  have hv1 : cv.minExp = -4 := by
+    simp [cv, o, k, Obj.view, Obj.step, Obj.init, Ctor.cfg, Cfg.minExp, Cfg.effBits, needSign]
+  have hv2 : cv.maxExp = 3 := by
+    simp [cv, o, k, Obj.view, Obj.step, Obj.init, Ctor.cfg, Cfg.maxExp, Cfg.maxExp0, Cfg.effBits, needSign]
+  have hf1 : cf.minExp = -8 := by
+    simp [cf, o, k, Obj.fresh, Obj.step, Obj.init, Ctor.cfg, Cfg.minExp, Cfg.effBits, needSign]
+    norm_num
+  have hf2 : cf.maxExp = 7 := by
+    simp [cf, o, k, Obj.fresh, Obj.step, Obj.init, Ctor.cfg, Cfg.maxExp, Cfg.maxExp0, Cfg.effBits, needSign]
+    norm_num
+  have hmagv : magIn cv (1 / 64) = 1 / 64 := magIn_of_nonneg cv (by norm_num)
+  have hmagf : magIn cf (1 / 64) = 1 / 64 := magIn_of_nonneg cf (by norm_num)
+  have hlogv : logArg cv (1 / 64) = 1 / 64 := by
+    unfold logArg; rw [hmagv]
+    simp [cv, o, k, Obj.view, Obj.step, Obj.init, Ctor.cfg, xFilter, epsF32]; norm_num
+  have hlogf : logArg cf (1 / 64) = 1 / 64 := by
+    unfold logArg; rw [hmagf]
+    simp [cf, o, k, Obj.fresh, Obj.step, Obj.init, Ctor.cfg, xFilter, epsF32]; norm_num
+  refine ⟨hv1, hf1, ?_, ?_, ?_, ?_⟩
+  · rw [hlogv, rawAdm_rnd cv rfl]; unfold RndAdm key bandLo bandHi
+    simp only [cv, o, k, Obj.view, Obj.step, Obj.init, Ctor.cfg, beta, pow2_eq_zpow]; norm_num
+  · rw [hlogf, rawAdm_rnd cf rfl]; unfold RndAdm key bandLo bandHi
+    simp only [cf, o, k, Obj.fresh, Obj.step, Obj.init, Ctor.cfg, beta, pow2_eq_zpow]; norm_num
+  · unfold quantWith clipExpWith
+    rw [hmagv, hv1, hv2, signOut_of_nonneg cv (by norm_num)]
+    simp [cv, o, k, Obj.view, Obj.step, Obj.init, Ctor.cfg, Cfg.qf, clipI, epsF32, pow2_eq_zpow]; norm_num
+  · unfold quantWith clipExpWith
+    rw [hmagf, hf1, hf2, signOut_of_nonneg cf (by norm_num)]
+    simp [cf, o, k, Obj.fresh, Obj.step, Obj.init, Ctor.cfg, Cfg.qf, clipI, epsF32, pow2_eq_zpow]; norm_num
+
+/-! ### `negative_slope > 1` -/
+
+/-- regression witness: `quantized_relu_po2(4, negative_slope=2)`: `q(-3) = -8` (`3·2 = 6`,
+    log2-nearest exponent 3), inside `[min(), max()] = [-128, 128]` -/
+theorem C03_slope_gt_one_regression :
+    let c : Cfg := { relu := true, bits := 4, maxValue := none, negSlope := 2,
+                     floorMode := false, quad := false, eps := epsF32 }
+    c.WF ∧ RawAdm c (logArg c (-3)) 3 ∧ quantWith c (-3) 3 = -8 ∧ qmin c = -128 := by
+  intro c
+  have hmin : c.minExp = -8 := by simp [c, Cfg.minExp, Cfg.effBits, needSign]
+  have hmax : c.maxExp = 7 := by simp [c, Cfg.maxExp, Cfg.maxExp0, Cfg.effBits, needSign]
+  have hmag : magIn c (-3) = 6 := by simp [c, magIn, posBranch]; norm_num
+  have hlog : logArg c (-3) = 6 := by
+    unfold logArg; rw [hmag]; simp [c, xFilter, epsF32]; norm_num
+  refine ⟨⟨by simp [c], epsF32_pos, by norm_num [c, epsF32], by simp [c], by norm_num [c], by simp [c]⟩,
+    ?_, ?_, ?_⟩
+  · rw [hlog, rawAdm_rnd c rfl]; unfold RndAdm key bandLo bandHi
+    simp only [c, beta, pow2_eq_zpow]; norm_num
+  · unfold quantWith clipExpWith
+    rw [hmag, hmin, hmax]
+    simp [c, signOut, posBranch, Cfg.qf, clipI, epsF32, pow2_eq_zpow]; norm_num
+  · unfold qmin qmax; rw [hmax]; simp [c, truthy, rmax, pow2_eq_zpow]; norm_num
+
+set_option exponentiation.threshold 600 in
+/-- recorded finding `C03-slope-overflow`: `quantized_relu_po2(4, negative_slope=2)` at
+    `x = -FLT_MAX`: the exact layer selects `-2^7`, but `K.relu(x, 2) = 2·x` overflows in float32
+    and the float32 layer has no finite result (the real code returns NaN) -/
+theorem C03_slope_overflow_counterexample :
+    let c : Cfg := { relu := true, bits := 4, maxValue := none, negSlope := 2,
+                     floorMode := false, quad := false, eps := epsF32 }
+    let x : ℚ := -340282346638528859811704183484516925440
+    RawAdm c (logArg c x) 129 ∧ quantWith c x 129 = -128 ∧ quantFWith c x 129 = none := by
+  intro c x
+  have hmin : c.minExp = -8 := by simp [c, Cfg.minExp, Cfg.effBits, needSign]
+  have hmax : c.maxExp = 7 := by simp [c, Cfg.maxExp, Cfg.maxExp0, Cfg.effBits, needSign]
+  have hmag : magIn c x = 680564693277057719623408366969033850880 := by
+    simp [c, x, magIn, posBranch]; norm_num
+  have hlog : logArg c x = 680564693277057719623408366969033850880 := by
+    unfold logArg; rw [hmag]; simp [c, xFilter, epsF32]; norm_num
+  have hd : daz x = x := by unfold daz rabs; rw [pow2_eq_zpow]; norm_num [x]
+  refine ⟨?_, ?_, ?_⟩
+  · rw [hlog, rawAdm_rnd c rfl]; unfold RndAdm key bandLo bandHi
+    simp only [c, beta, pow2_eq_zpow]
+    constructor <;> norm_num
+  · unfold quantWith clipExpWith
+    rw [hmag, hmin, hmax]
+    simp [c, x, signOut, posBranch, Cfg.qf, clipI, epsF32, pow2_eq_zpow]; norm_num
+  · -- float32(2 * x) overflows
+    have hr : rnd32 (2 * x) = none := by
+      have ha : rabs (2 * x) = 680564693277057719623408366969033850880 := by
+        unfold rabs; norm_num [x]
+      have hfl : floorLog2Rat (680564693277057719623408366969033850880 : ℚ) = 128 := by
+        apply floorLog2Rat_unique <;> · rw [pow2_eq_zpow]; norm_num
+      have hrh : roundHalfEven ((680564693277057719623408366969033850880 : ℚ) / pow2 (128 - 23)) = 16777215 := by
+        have : (680564693277057719623408366969033850880 : ℚ) / pow2 (128 - 23) = ((16777215 : ℤ) : ℚ) := by
+          rw [pow2_eq_zpow]; norm_num
+        rw [this]; exact roundHalfEven_int _
+      unfold rnd32
+      rw [if_neg (by norm_num [x])]
+      simp only [ha, hfl, hrh]
+      rw [pow2_eq_zpow, pow2_eq_zpow, pow2_eq_zpow]
+      norm_num
+    have hb : steBase c x = none := by
+      have hx : ¬ (0 : ℚ) ≤ x := by norm_num [x]
+      have hs : ¬ c.negSlope = 0 := by norm_num [c]
+      unfold steBase
+      simp only [show c.relu = true from rfl, if_true, hx, if_false,
+        show c.maxValue = none from rfl, show c.negSlope = 2 from rfl]
+      exact hr
+    unfold quantFWith
+    simp only [hd, hb]
+    split <;> simp_all
+
 end QKV.Props.C03
